@@ -359,7 +359,12 @@ public:
         constexpr Index max_iter_per_row = 40;
         const Index max_iter = m_n * max_iter_per_row;
 
-        m_T.noalias() = mat;
+        // Scale the matrix prior to the iteration, as Eigen::RealSchur does,
+        // so that products of entries neither overflow nor underflow
+        Scalar scale = mat.cwiseAbs().maxCoeff();
+        if (scale == Scalar(0))
+            scale = Scalar(1);
+        m_T.noalias() = mat / scale;
         m_U.setIdentity();
 
         // The matrix m_T is divided in three parts.
@@ -414,6 +419,9 @@ public:
 
         if (total_iter > max_iter)
             throw std::runtime_error("UpperHessenbergSchur: Schur decomposition failed");
+
+        // Scale T back
+        m_T *= scale;
 
         m_computed = true;
     }
